@@ -285,6 +285,14 @@ class Engine:
         self.tree = ast.parse(source_text) if fn_node is None else None
         self.fn = fn_node if fn_node is not None else find_function(self.tree, contract.qualname)
         self.loop_ids = number_loops(self.fn)
+        self.inline_fns = {}
+        for cname, (qn, pref) in getattr(contract, "inline", {}).items():
+            if self.tree is None:
+                raise BindError("inlining needs the module source")
+            fnode = find_function(self.tree, qn)
+            for k_, v_ in number_loops(fnode).items():
+                self.loop_ids[k_] = pref + "." + v_
+            self.inline_fns[cname] = fnode
         self.obls = []
         self.fresh_n = itertools.count()
         self.fconsts = {}
@@ -312,6 +320,8 @@ class Engine:
                     if sub and not isinstance(st, ast.FunctionDef):
                         _order(sub)
         _order(self.fn.body)
+        for fnode in self.inline_fns.values():
+            _order(fnode.body)
         self.stored_names = set()
         for n in ast.walk(self.fn):
             if isinstance(n, (ast.Assign, ast.AugAssign)):
@@ -736,6 +746,9 @@ class Engine:
                 return z3.If(c, self.to_int(a), self.to_int(b))
         if name in self.extra_builtins:
             return self.extra_builtins[name](self, e, st, spec)
+        if name in self.inline_fns:
+            fnode = self.inline_fns[name]
+            return self._inline(name, [x.arg for x in fnode.args.args], fnode.body, e, st, spec)
         if isinstance(fn, ast.Name) and isinstance(st.env.get(fn.id), PyObj) and st.env[fn.id].call is not None:
             return st.env[fn.id].call(self, e, st, spec)
         if isinstance(fn, ast.Attribute) and not (isinstance(fn.value, ast.Name) and fn.value.id in ("np", "math", "struct")):
@@ -960,36 +973,42 @@ class Engine:
             raise Unsupported("assignment target %s" % type(t).__name__)
         return None
 
+    def _inline(self, fname, params, body, e, cst, spec, single_exit=True):
+        """execute `body` with `params` bound to the call's positional arguments, in the caller's state (ghost variables persist, locals are restored)"""
+        if e.keywords or len(e.args) != len(params) or any(isinstance(x, ast.Starred) for x in e.args):
+            raise Unsupported("inlined call of %s: arguments" % fname)
+        vals = [self.ev(x, cst, spec) for x in e.args]
+        local = set(params) | assigned_names(body)
+        keep = set(getattr(self.c, "extra_mods", ())) | {g for g, _, _ in self.c.ghosts}
+        local -= keep
+        saved = {k: cst.env[k] for k in local if k in cst.env}
+        inner = cst.copy()
+        for k, v in zip(params, vals):
+            inner.env[k] = v
+        outs = self.exec_block(body, inner)
+        outs = [o for o in outs if not any(z3.is_false(f) for f in o[1].pc)]
+        if len(outs) != 1 or outs[0][0] not in ("normal", "return"):
+            raise Unsupported("inlined call of %s: %d exits (%s)" % (fname, len(outs), [o[0] for o in outs]))
+        kind, o, pay = outs[0]
+        env = dict(o.env)
+        for k in local:
+            env.pop(k, None)
+        env.update(saved)
+        cst.env.clear(); cst.env.update(env)
+        cst.pc[:] = o.pc
+        return pay if kind == "return" else None
+
     def st_FunctionDef(self, s, st):
-        """a nested helper: bound to a closure object that is INLINED at each call (positional parameters only; the body must be loop-free with one exit).
+        """a nested helper: bound to a closure object that is INLINED at each call (positional parameters only; one exit).
         Free variables are read from the state at the call (Python closures read the enclosing scope at call time as well)."""
         a = s.args
         if a.vararg or a.kwarg or a.kwonlyargs or a.defaults or a.posonlyargs:
             raise Unsupported("nested function %s: only plain positional parameters" % s.name)
         params = [x.arg for x in a.args]
-        body = s.body
         eng = self
 
         def call(eng_, e, cst, spec):
-            if e.keywords or len(e.args) != len(params) or any(isinstance(x, ast.Starred) for x in e.args):
-                raise Unsupported("call of nested function %s: arguments" % s.name)
-            vals = [eng.ev(x, cst, spec) for x in e.args]
-            local = set(params) | assigned_names(body)
-            saved = {k: cst.env[k] for k in local if k in cst.env}
-            inner = cst.copy()
-            for k, v in zip(params, vals):
-                inner.env[k] = v
-            outs = eng.exec_block(body, inner)
-            if len(outs) != 1 or outs[0][0] not in ("normal", "return"):
-                raise Unsupported("nested function %s: more than one exit (%s)" % (s.name, [o[0] for o in outs]))
-            kind, o, pay = outs[0]
-            env = dict(o.env)
-            for k in local:
-                env.pop(k, None)
-            env.update(saved)
-            cst.env.clear(); cst.env.update(env)
-            cst.pc[:] = o.pc
-            return pay if kind == "return" else None
+            return eng._inline(s.name, params, s.body, e, cst, spec)
 
         st = st.copy()
         st.env[s.name] = PyObj("closure %s" % s.name, call=call)
@@ -1155,30 +1174,42 @@ class Engine:
     def st_For(self, s, st):
         lid, spec = self.loop_spec(s)
         it = s.iter
-        if not (isinstance(it, ast.Call) and ast.unparse(it.func) == "range" and isinstance(s.target, ast.Name)):
-            raise Unsupported("for over %s at line %s" % (ast.unparse(it)[:30], s.lineno))
-        ra = [self.to_int(self.ev(a, st)) for a in it.args]
-        if len(ra) == 1:
-            lo, hi, step = z3.IntVal(0), ra[0], 1
-        elif len(ra) == 2:
-            lo, hi, step = ra[0], ra[1], 1
+        rows_of = None
+        if isinstance(it, ast.Call) and ast.unparse(it.func) == "range" and isinstance(s.target, ast.Name):
+            ra = [self.to_int(self.ev(a, st)) for a in it.args]
+            if len(ra) == 1:
+                lo, hi, step = z3.IntVal(0), ra[0], 1
+            elif len(ra) == 2:
+                lo, hi, step = ra[0], ra[1], 1
+            else:
+                raise Unsupported("range with step")
+            tgt = s.target.id
         else:
-            raise Unsupported("range with step")
-        tgt = s.target.id
+            obj = self.ev(it, st)
+            if not (isinstance(obj, PyObj) and getattr(obj, "iter_rows", None) is not None):
+                raise Unsupported("for over %s at line %s" % (ast.unparse(it)[:30], s.lineno))
+            n_rows, rows_of = obj.iter_rows          # iteration over the rows of a contract object: k = 0 .. n-1, target(s) = rows_of(k)
+            lo, hi = z3.IntVal(0), n_rows
+            names = [s.target.id] if isinstance(s.target, ast.Name) else [x.id for x in s.target.elts]
+            tgt = names[0]
         nx = "nx_" + tgt
         st = st.copy()
         st.env[nx] = lo
         if tgt not in st.env:
             st.env[tgt] = self.fresh(tgt, z3.IntSort())
         self.check_inv(st, spec, lid, "init", s)
-        mods = assigned_names(s.body) | self.ghost_mods(s.body) | {tgt, nx}
+        mods = assigned_names(s.body) | self.ghost_mods(s.body) | {tgt, nx} | set(getattr(self.c, "extra_mods", ()))
         h = st.copy()
         self.havoc(h, mods)
         h.assume(h.env[nx] >= lo)
         self.assume_inv(h, spec)
         body_st = h.copy()
         body_st.assume(body_st.env[nx] < hi)
-        body_st.env[tgt] = body_st.env[nx]
+        if rows_of is None:
+            body_st.env[tgt] = body_st.env[nx]
+        else:
+            for nm_, v_ in zip(names, rows_of(body_st.env[nx])):
+                body_st.env[nm_] = v_
         cur = body_st.env[nx]
         self.canary(body_st, "loop%s.body-reachable" % lid, s)
         outs = []
